@@ -117,7 +117,7 @@ class C12(object):
     rule = ("one run = one frame history (1..40 frames of 4x4..32x32) through labelimage.peaksearch / output2dpeaks / "
             "mergelast / finalise on the instrumented module (team, strategy, heap garbage, disjoint-set capacity, "
             "realloc mode drawn per run); distinct = distinct (scene digest, threshold, omega steps, capacity, team); "
-            "non-trivial = at least one component spans two or more frames; also: NaN background pixels, thresholds down to -5000, two labelimage objects whose GIL-free kernel calls are replayed concurrently, and (tier 2) the threaded peaksearch driver under the Python scheduler")
+            "non-trivial = at least one component spans two or more frames; also: NaN background pixels, thresholds down to -5000, two labelimage objects whose GIL-free kernel calls are replayed concurrently, detector-sized frames (65536 pixels and more), and (tier 2) the threaded peaksearch driver under the Python scheduler, in a fifth of those runs called twice in the run")
     components = {"real": enginea.COMPONENTS_REAL + ["connectedpixels, blobproperties, bloboverlaps, blob_moments, dset_*, "
                                                        "add_pixel, merge, compute_moments (machine code)",
                                                        "ImageD11.labelimage.labelimage (unchanged Python), blobcorrector.perfect"],
